@@ -198,19 +198,20 @@ C15Verdict(c) ==
 \* ------------------------------------------------------------------ dispatch
 Verdict(c) == IF Family = "C08" THEN C08Verdict(c) ELSE C15Verdict(c)
 
-Init == idx = 0 /\ cnt = [ok |-> 0, deviation |-> 0, fail |-> 0, skip |-> 0]
+Init == idx = 0 /\ cnt = [ok |-> 0, deviation |-> 0, fail |-> 0, skip |-> 0, chi |-> 0]
 
 Next ==
   /\ idx < Len(Trace)
   /\ idx' = idx + 1
   /\ LET c == Trace[idx']  v == Verdict(c)
          kind == IF v[1] = "skip" THEN "ok" ELSE v[1] IN
-     /\ cnt' = [cnt EXCEPT ![kind] = @ + 1, !.skip = @ + (IF v[1] = "skip" THEN 1 ELSE 0)]
-     \* "skip" (outside the statement's domain) and "chi" (how many |chi| comparisons were
-     \* decided) are informative lines; only "deviation" and "fail" are verdicts
+     /\ cnt' = [cnt EXCEPT ![kind] = @ + 1,
+                           !.skip = @ + (IF v[1] = "skip" THEN 1 ELSE 0),
+                           !.chi = @ + (IF Family = "C15" /\ v[1] = "ok" THEN ChiCompared(c.reads) ELSE 0)]
+     \* "skip" = outside the domain on which the statement is unambiguous (informative line)
      /\ (v[1] = "ok" \/ PrintT(<<"V", c.id>> \o v))
-     /\ (Family # "C15" \/ v[1] # "ok" \/ PrintT(<<"V", c.id, "chi", ChiCompared(c.reads)>>))
-  /\ (idx' < Len(Trace) \/ PrintT(<<"SUMMARY", Len(Trace), cnt'.ok, cnt'.deviation, cnt'.fail, cnt'.skip>>))
+  \* extras: cases skipped, |chi| comparisons decided
+  /\ (idx' < Len(Trace) \/ PrintT(<<"SUMMARY", Len(Trace), cnt'.ok, cnt'.deviation, cnt'.fail, cnt'.skip, cnt'.chi>>))
 
 Spec == Init /\ [][Next]_vars
 =============================================================================
